@@ -32,7 +32,11 @@ MANIFEST = {
             'repaired in /repo (c7bb64a) and checked as an ordinary case; open finding there: F-C07-4 (list of tuple-share group elements: non-receiver gets r*n '
             'Nones). Lists with duplicate party indices are outside the theorems that need NoDup and are not generated. '
             'm <= 4 exhaustive for subsets (m <= 3 for arbitrary graphs), m = 5..7 sampled; recombined values compared for '
-            'a random 30% of numeric outputs in the quick tier. Aliasing stream (m=1 -M1 and m=3): every list/dict argument of '
+            'a random 30% of numeric outputs in the quick tier. Tiny secure fields SecFld(2)/SecFld(3) (SecFld(4) at m=3) in own sessions m=3,4,5,8 '
+            '(9 thorough), t>=1: every sender subset input and opened, every receiver subset x threshold output (oracle '
+            'only; the extension-field lift q^e > m is not modelled); transfer of tiny-field values is not exercised. '
+            'Sessions with threshold in force != start-up option ((m,t0,t) = (3,0,1),(3,1,0),(5,2,1),(5,1,2)): model '
+            'evaluated with the threshold in force. Aliasing stream (m=1 -M1 and m=3): every list/dict argument of '
             'output / input / transfer is changed in place by the caller between the call and the await; expected = '
             'model on the call-time arguments; output receivers late read F-C07-5 fixed (8b4dfdd); transfer reads all '
             'its arguments late (coroutine annotated -> Future has no synchronous part): open finding F-C07-6.',
@@ -135,6 +139,8 @@ def coq_natlist(xs):
 FLOATS = [1.5, -0.75, 0.0, 3.0, 1024.0, -0.001953125, 96.5]
 PERMS = list(itertools.permutations(range(3)))
 NUMERIC = ('secint', 'secfxp', 'secfld')
+TINY = {'fld2': 2, 'fld3': 3, 'fld4': 4}     # tiny secure fields: lifted to an extension GF(q^e), q^e > m, when m >= q and t > 0
+FIELD_TYPES = ('secfld2',) + tuple(TINY)
 TUPLE_SHARE = ('symgrp',)      # secure group elements whose share is a tuple of field elements
 
 
@@ -158,6 +164,8 @@ def stype_of(env, st):
         env[st] = mpc.SecSymmetricGroup(3)
     elif st == 'qr':
         env[st] = mpc.SecQuadraticResidues(l=8)
+    elif st in TINY:
+        env[st] = mpc.SecFld(TINY[st])
     return env[st]
 
 
@@ -172,6 +180,8 @@ def plain_value(env, st, v):
         return v % 101
     if st == 'secfld2':
         return v % 16
+    if st in TINY:
+        return v % TINY[st]
     if st == 'secflt':
         return FLOATS[v % len(FLOATS)]
     if st == 'symgrp':
@@ -189,7 +199,7 @@ def canon(st, r):
         return int(r)
     if st in ('secfxp', 'secflt'):
         return float(r)
-    if st in ('secfld', 'secfld2'):
+    if st in ('secfld', 'secfld2') or st in TINY:
         return int(r)
     return str(r)
 
@@ -276,7 +286,7 @@ async def exec_op(op, k, env, pid, m, mark):
         else:
             flat = [a for row in y for a in row] if n is not None else list(y)
         shares = []
-        if st in NUMERIC or st == 'secfld2':
+        if st in NUMERIC or st in FIELD_TYPES:
             shares = await mpc.gather(flat)
         elif st == 'secflt':
             await mpc.gather([c for a in flat for c in a.share])
@@ -309,7 +319,7 @@ async def exec_op(op, k, env, pid, m, mark):
             ins = [T(plain_value(env, st, v if pid == dealer else 0)) for v in vals]
             xs = mpc.input(ins, senders=dealer)
         shares = []
-        if st in NUMERIC or st == 'secfld2':
+        if st in NUMERIC or st in FIELD_TYPES:
             shares = await mpc.gather(xs)
         elif st == 'secflt':
             await mpc.gather([c for a in xs for c in a.share])
@@ -355,12 +365,18 @@ def _shape(y):
     return 0
 
 
-def run_ops(m, t, ops, seed, no_prss=False, policy=None, idle_limit=300):
+def run_ops(m, t, ops, seed, no_prss=False, policy=None, idle_limit=300, t0=None):
     """Run the op sequence at all m parties in one simulator. Returns dict:
     recs[pid] = list of per-op records (as far as the party got), status[pid] = 'ok'|'PENDING'|('EXC',..),
     excs = exception type names seen by the loop, wire = per-link frame count check."""
     from lib.sim import Sim
-    sim = Sim(m, t, no_prss=no_prss, seed=seed)
+    sim = Sim(m, t if t0 is None else t0, no_prss=no_prss, seed=seed)
+    if t0 is not None:
+        # the program assigns mpc.threshold before mpc.start() (as demos/parallelsort.py does): the runtime came up
+        # with options.threshold = t0 (command line), everything must follow the threshold in force t
+        for mpc_i in sim.mpcs:
+            mpc_i.threshold = t
+        sim.t = t           # sim.frames() skips the PRSS-key handshake computed from the threshold in force
     excs = []
     closing = []
 
@@ -683,12 +699,14 @@ def describe(op):
     return {k: v for k, v in op.items()}
 
 
-def check_batch(ctx, m, t, no_prss, ops, run, exprs, meta, tag):
+def check_batch(ctx, m, t, no_prss, ops, run, exprs, meta, tag, t0=None):
     """Property oracle on every finished op of a batch; queue the Coq expressions."""
     nops = len(ops)
     stuck = first_stuck(run, nops)
     upto = nops if stuck is None else stuck[0]
     cfg = {'m': m, 't': t, 'no_prss': no_prss}
+    if t0 is not None:
+        cfg['threshold_at_startup'] = t0
     if not run.get('wire_ok', True):
         ctx.violation('%s wire frames differ from send log m=%d' % (tag, m), {'config': cfg})
     for k in range(upto):
@@ -816,6 +834,8 @@ def _plain_canon(st, v):
         return v % 101
     if st == 'secfld2':
         return v % 16
+    if st in TINY:
+        return v % TINY[st]
     if st == 'secflt':
         return float(FLOATS[v % len(FLOATS)])
     if st == 'symgrp':
@@ -968,6 +988,38 @@ def run(ctx):
         ctx.log('config m=%d t=%d prss=%s: %d ops in one simulator run' % (m, t, not no_prss, len(safe)))
         run_ = run_ops(m, t, safe, ctx.seed * 131 + m * 7 + t, no_prss=no_prss)
         check_batch(ctx, m, t, no_prss, safe, run_, exprs, meta, 'batch')
+        nbatch += 1
+    # tiny secure fields (SecFld(2), SecFld(3), SecFld(4)): with t >= 1 and m >= q the sharing field is an extension
+    # GF(q^e) that must have MORE than m elements (x-coordinates 1..m distinct and nonzero) - m = q^e is the edge
+    tiny_sessions = [(3, 1, False), (4, 1, False), (5, 2, False), (5, 1, True), (8, 3, True)]
+    if thorough:
+        tiny_sessions += [(4, 1, True), (8, 2, True), (9, 4, True)]
+    for (m, t, no_prss) in tiny_sessions:
+        types = ['fld2', 'fld3'] + (['fld4'] if m < 4 else [])     # SecFld(4) with m >= 4, t > 0 is refused by assert
+        small = m >= 8
+        ops = gen_input_ops(m, rng, m <= 4, 3 if small else ctx.n(6, 14), types)
+        ops += gen_output_ops(m, t, rng, m <= 4, 3 if small else ctx.n(6, 14), types)
+        ops = [o for o in ops if o.get('n') != 0]
+        if small:
+            ops = [o for o in ops if o.get('threshold') in (None, t)]
+        rng.shuffle(ops)
+        ctx.log('tiny-field session m=%d t=%d prss=%s: %d ops' % (m, t, not no_prss, len(ops)))
+        run_ = run_ops(m, t, ops, ctx.seed * 139 + m * 11 + t, no_prss=no_prss)
+        check_batch(ctx, m, t, no_prss, ops, run_, exprs, meta, 'tiny-field')
+        nbatch += 1
+    # sessions whose threshold in force differs from the start-up option: Sim(m, t0); mpc.threshold = t; start
+    for (m, t0, t) in ((3, 0, 1), (3, 1, 0), (5, 2, 1), (5, 1, 2)):
+        ex = m <= 3
+        types = list(NUMERIC) + ['fld2', 'fld3']
+        ops = gen_transfer_ops(m, rng, False, ctx.n(10, 30))
+        ops += gen_input_ops(m, rng, ex, ctx.n(6, 14), types)
+        ops += gen_output_ops(m, t, rng, ex, ctx.n(6, 14), types)
+        ops += [o for o in gen_output_ops(m, t, rng, False, 2, ['secflt', 'symgrp']) if not is_risky(o, m)]
+        ops = [o for o in ops if o.get('n') != 0 or o['stype'] == 'secint']
+        rng.shuffle(ops)
+        ctx.log('threshold session m=%d start-up t0=%d, in force t=%d: %d ops' % (m, t0, t, len(ops)))
+        run_ = run_ops(m, t, ops, ctx.seed * 149 + m * 5 + t0 * 3 + t, t0=t0)
+        check_batch(ctx, m, t, False, ops, run_, exprs, meta, 'threshold-session', t0=t0)
         nbatch += 1
     # aliasing stream: late reads of caller-owned mutable arguments (asynchronous mode: -M1 and m=3)
     nalias = 0
